@@ -64,6 +64,16 @@ def configs(tier, seed):
     out.append({"fam": "bridge", "cfg": {"aw": 5, "dw": 8, "regs": [{"name": "a__b", "w": 8, "scope": []},
                                                                     {"name": "b", "w": 8, "scope": [["c", "a"]]}]}})
     out.append({"fam": "bridge", "cfg": {"aw": 5, "dw": 8, "regs": [{"name": "r", "w": 8, "scope": [["i", 0]]}]}})
+    # multiplexers whose map was probed (decode_address) before the registers were added, registers added late
+    for i in range(6 if tier == "quick" else 30):
+        regs = [{"w": rnd.choice([8, 12, 24]), "acc": rnd.choice(["r", "rw"]), "addr": a}
+                for a in sorted(rnd.sample(range(0, 16, 4), rnd.randint(1, 3)))]
+        out.append({"fam": "c04", "cfg": {"dw": 8, "aw": 4, "align": 0, "regs": regs, "ov": None,
+                                          "probe": True, "late": bool(i % 2)}})
+    # decoders: after elaboration the public API must behave as on a twin that was never elaborated
+    for kind in ("csrdec", "wbdec"):
+        for i in range(3):
+            out.append({"fam": "api", "cfg": {"kind": kind, "n": i + 1}})
     from .c19_shadow import configs as shadow_configs
     out += shadow_configs(tier)
     return out
@@ -144,7 +154,51 @@ def _site(exc):
     return "?"
 
 
+def _api_twin(cfg):
+    """Build two identical decoders, elaborate one of them twice, then make the same add() on both."""
+    from amaranth.hdl import Fragment
+    from amaranth_soc import csr, wishbone
+    from amaranth_soc.memory import MemoryMap
+
+    def build():
+        if cfg["kind"] == "csrdec":
+            dec = csr.Decoder(addr_width=8, data_width=8)
+            def sub(i):
+                b = csr.Interface(addr_width=3, data_width=8, path=(f"s{i}",))
+                b.memory_map = MemoryMap(addr_width=3, data_width=8)
+                return b
+        else:
+            dec = wishbone.Decoder(addr_width=8, data_width=16, granularity=8)
+            def sub(i):
+                b = wishbone.Interface(addr_width=3, data_width=16, granularity=8, path=(f"s{i}",))
+                b.memory_map = MemoryMap(addr_width=4, data_width=8)
+                return b
+        for i in range(cfg["n"]):
+            dec.add(sub(i))
+        return dec, sub
+    a, sub_a = build()
+    b, sub_b = build()
+    Fragment.get(a, None)
+    Fragment.get(a, None)
+    res = []
+    for dec, sub in ((a, sub_a), (b, sub_b)):
+        try:
+            res.append(("ok", tuple(dec.add(sub(99)))))
+        except Exception as e:
+            res.append(("raise", type(e).__name__, str(e)[:80]))
+        res.append([(tuple(map(tuple, [n] if n else [])), r) for _, n, r in dec.bus.memory_map.windows()])
+    return res[:2], res[2:]
+
+
 def check(item, out, stats):
+    if item.get("fam") == "api":
+        out.extra = {"components": 1}
+        x, y = _api_twin(item["cfg"])
+        if x != y:
+            _violation(out, item, f"metadata-drift:api:{item['cfg']['kind']}",
+                       f"C19 after elaboration {item['cfg']['kind']}.add() behaves differently from a twin that was "
+                       f"never elaborated: {x[0]} vs {y[0]}")
+        return
     if item.get("shadow"):
         from .c19_shadow import check_shadow
         return check_shadow(item, out, stats)
@@ -205,7 +259,16 @@ def check(item, out, stats):
     fb, cb = unroll(tb, D, init="reset", tag="m")
     in_idx = set(ta.input_port_index.values())
     obs = [s for i, s in enumerate(h.ports) if i not in in_idx and len(s) and ta.has(s) and tb.has(s)]
-    diffs = [fa[t].sig(s) != fb[t].sig(s) for t in range(D) for s in obs]
+    diffs = []
+    identical = 0
+    for t in range(D):
+        for s in obs:
+            x, y = fa[t].sig(s), fb[t].sig(s)
+            if x.eq(y):
+                identical += 1          # hash-consed to the same term: syntactically the same function of the inputs
+            else:
+                diffs.append(x != y)
+    out.extra["outputs_syntactically_identical"] = identical
     if not diffs:
         return
     r, m = solve(ca + [z3.Or(*diffs)], stats, "re-elaboration-miter")
@@ -236,6 +299,9 @@ def _replay_miter(item, stim):
 
 
 def replay(v):
+    if v["cfg"].get("fam") == "api":
+        x, y = _api_twin(v["cfg"]["cfg"])
+        return x != y
     if v["cfg"].get("shadow"):
         from .c19_shadow import replay_shadow
         return replay_shadow(v)
